@@ -330,12 +330,12 @@ def stepMTRun (env : Env) (st : MTState) (q : MReq) : MTState × MObs :=
 
 /-- The compiler server cannot unpickle the request (`handle_client_call`:
     `pickle.loads(msg)` — e.g. a compile argument): nothing is stored, no worker is
-    involved, the reply is status 1 with that ordinary exception — and the client's
-    `BaseWorker.call` runs the acknowledgement callback. -/
+    involved; since 3499a3b the reply is a `FailedStateSync`, so the client does not run
+    its acknowledgement callback. -/
 def stepMTLost (st : MTState) (q : MReq) : MTState × MObs :=
   let p := preargs (st.bel q.c) q.r
-  (ack1 { st with clock := st.clock + 1 } q.c q.r.db p true,
-   ⟨p, !p.isEmpty, false, none, none, [], .unpickleErr, none⟩)
+  ({ st with clock := st.clock + 1 },
+   ⟨p, !p.isEmpty, false, none, none, [], .syncFail, none⟩)
 
 def stepMT (env : Env) (st : MTState) (q : MReq) : MTState × MObs :=
   if q.r.out = .requestUnreadable then stepMTLost st q else stepMTRun env st q
